@@ -20,6 +20,8 @@
 #include "src/kernel/actor/ActorImpl.hpp"
 #include "src/kernel/actor/SimcallObserver.hpp"
 #include "src/kernel/actor/SynchroObserver.hpp"
+#include "src/kernel/actor/WaitTestObserver.hpp"
+#include "src/kernel/actor/CommObserver.hpp"
 #include "src/kernel/activity/MutexImpl.hpp"
 #include "src/kernel/activity/SemaphoreImpl.hpp"
 #include "src/kernel/activity/ConditionVariableImpl.hpp"
@@ -233,6 +235,16 @@ static std::string comm_entry(const kernel::activity::CommImplPtr& c)
   }
   return s;
 }
+static std::string comm_peer(kernel::activity::CommImpl* ci)
+{
+  if (!((ci->src_actor_ && ci->dst_actor_) || ci->get_state() == kernel::activity::State::DONE)) return "U";
+  return "M" + std::to_string(ci->src_actor_ ? ci->src_actor_->get_pid() : 0) + ">" + std::to_string(ci->dst_actor_ ? ci->dst_actor_->get_pid() : 0) + "=" + std::to_string(ci->src_buff_ ? *reinterpret_cast<long*>(ci->src_buff_) : -1);
+}
+static std::string mess_peer(kernel::activity::MessImpl* mi)
+{
+  if (!((mi->src_actor_ && mi->dst_actor_) || mi->get_state() == kernel::activity::State::DONE)) return "U";
+  return "M" + std::to_string(mi->src_actor_ ? mi->src_actor_->get_pid() : 0) + ">" + std::to_string(mi->dst_actor_ ? mi->dst_actor_->get_pid() : 0) + "=" + std::to_string(mi->payload_ ? *static_cast<long*>(mi->payload_) : -1);
+}
 static std::string canonical()
 {
   std::string s;
@@ -242,9 +254,16 @@ static std::string canonical()
     bool alive = EI->get_actor_by_pid(pid) != nullptr;
     s += "A" + std::to_string(pid) + ":" + (alive ? std::to_string(a.pc) : std::string("X")) + ":" + std::to_string(a.ntrans) + ":" + a.log + ":l" + std::to_string(a.local) + ":k";
     for (int k = 0; k < MAXS; k++) { char c = a.slot[k];
-      if (c == 's' || c == 'r') { auto* ci = static_cast<kernel::activity::CommImpl*>(a.comm[k]->get_impl()); c = (ci->src_actor_ && ci->dst_actor_) || ci->get_state() == kernel::activity::State::DONE ? 'M' : 'U'; }
-      else if (c == 'S' || c == 'R') { auto* mi = static_cast<kernel::activity::MessImpl*>(a.mess[k]->get_impl()); c = (mi->src_actor_ && mi->dst_actor_) || mi->get_state() == kernel::activity::State::DONE ? 'M' : 'U'; }
-      s += c; }
+      if (c == 's' || c == 'r') s += comm_peer(static_cast<kernel::activity::CommImpl*>(a.comm[k]->get_impl()));
+      else if (c == 'S' || c == 'R') s += mess_peer(static_cast<kernel::activity::MessImpl*>(a.mess[k]->get_impl()));
+      else s += c; }
+    // the communication a blocking put/get is waiting for (which peer was matched is part of the state)
+    if (alive) if (auto* act = EI->get_actor_by_pid(pid); act->simcall_.observer_)
+      if (auto* w = dynamic_cast<kernel::actor::ActivityWaitSimcall*>(act->simcall_.observer_)) {
+        bool in_slot = false;
+        for (int k = 0; k < MAXS; k++) if ((a.comm[k] && a.comm[k]->get_impl() == w->get_activity()) || (a.mess[k] && a.mess[k]->get_impl() == w->get_activity())) in_slot = true;
+        if (!in_slot) { if (auto* ci = dynamic_cast<kernel::activity::CommImpl*>(w->get_activity())) s += ":w" + comm_peer(ci); else if (auto* mi = dynamic_cast<kernel::activity::MessImpl*>(w->get_activity())) s += ":w" + mess_peer(mi); }
+      }
     s += std::string(":p") + a.pres + ";";
   }
   if (!vars.empty()) { s += "V:"; for (size_t i = 0; i < vars.size(); i++) s += (i ? "," : "") + std::to_string(vars[i]); s += ";"; }
@@ -278,6 +297,8 @@ static int SOCK[2]; static mc::Channel *APP, *CHK;
 static std::string transition_text(kernel::actor::ActorImpl* a)
 {
   if (!a->simcall_.observer_) return "-";
+  if (!getenv("VX_DECODE_MESS") && (dynamic_cast<kernel::actor::MessIputSimcall*>(a->simcall_.observer_) || dynamic_cast<kernel::actor::MessIgetSimcall*>(a->simcall_.observer_)))
+    return "Mess(" + a->simcall_.observer_->to_string() + ")"; // decoding these hangs on the unchanged tree (C43): only done on request
   a->simcall_.observer_->serialize(*APP); a->get_memory_trace()->serialize(*APP); APP->send();
   mc::TransitionPtr t = mc::deserialize_transition((unsigned)a->get_pid(), a->get_restart_count(), *CHK); t->deserialize_memory_tracker(*CHK);
   return t->to_string(false);
